@@ -60,6 +60,7 @@ struct DataSet {
                                         // 64 KiB buffer, flushed when full), 2 one buffer per object, 3 buffers of three objects
     std::string name;                   // generator name: make_dataset(name) rebuilds exactly this data set (replay)
     std::string keyhint;                // family tag used in class keys of whole-file findings (block families)
+    std::string sel = "all";            // which objects of the generated data set are kept (replay form)
 };
 
 // ------------------------------------------------------------------------------------------------
